@@ -37,7 +37,8 @@ class Parser(Emitter):
             formulaserror.clear_tracebacks()
 
         if isinstance(result, formulaserror.XLError):
-            error = str(result)
+            # report one of the canonical codes even for an error object made by the host
+            error = str(formulaserror.from_message(result))
             result = None
         return {'result': result, 'error': error}
 
